@@ -8,7 +8,9 @@
                          acceptance tests at the head of each Atomic.decode
    written clause for clause, with the exception class of every failing path.  The model follows the
    worktree WITH the three `fix:` commits recorded in known_findings/C03.json.  No proofs here. *)
-From Bac Require Export Base Tag Schema.
+From Bac Require Import Base.
+From Bac Require Import Tag.
+From Bac Require Import Schema.
 Open Scope N_scope.
 
 Definition open_tag (c : N) : tag := mkTag 2 c 0 [].
